@@ -113,6 +113,9 @@ def run_ops(model, objs, ops):
             b = op[2]
             model.add_data({objs[op[1]]: (float(sx.q(b[0])), float(sx.q(b[1])))})
             res.append([dump(objs)])
+        elif t == 10:
+            model.flush()
+            res.append([dump(objs)])
         elif t == 9:
             res.append([bool(model.has_contradiction())])
         else:
@@ -135,4 +138,29 @@ def k4(args):
     return [k3([kbs, roots1, data, ops1]), k3([kbs, roots2, data, ops2])]
 
 
-HANDLERS = {3: k3, 4: k4}
+def k30(args):
+    kbs, calls = args[:2]
+    objs = build_kb(kbs)
+    model = Model()
+    out = []
+
+    def idx(o):
+        for i, x in enumerate(objs):
+            if x is o:
+                return i
+        return -2
+
+    for c in calls:
+        model.add_knowledge(*[objs[r] for r in c])
+        nums = [(-1 if o.formula_number is None else o.formula_number) for o in objs]
+        nodes = [(idx(model.nodes[key]) if key in model.nodes else -1) for key in range(model.num_formulae)]
+        params = model.parameters()
+        cnt = []
+        for o in objs:
+            own = list(o.parameters())
+            cnt.append(sum(1 for p in params if p is own[0]) if own else 0)
+        out.append([model.num_formulae, nums, nodes, len(model.nodes), cnt])
+    return out
+
+
+HANDLERS = {3: k3, 4: k4, 30: k30}
